@@ -128,6 +128,8 @@ Definition check_limits (pn : str) (v : pyval) (c : cache) : res unit :=
 (* ------------------------------------------------------------------ user code: hooks and driver *)
 Inductive hres := HNone | HStop | HRaise (e : err).       (* returns falsy / returns truthy / raises *)
 Inductive drv := DNone | DDone | DVal (v : pyval) | DRaise (e : err).
+(* a function returning the value None is a function returning None *)
+Definition drv_norm (d : drv) : drv := match d with DVal PNone => DNone | _ => d end.
 
 Inductive call := Write (p : str) (v : pyval) | Call (c : str) (v : pyval).
 
@@ -190,7 +192,7 @@ Definition write_wrapper (p : param) (v : pyval) (c : cache) (d : drv) : out :=
       | None =>
           if p_haswrite p then
             let dl := [Write (p_name p) nv] in
-            match d with
+            match drv_norm d with
             | DDone => {| o_reply := None; o_drv := dl; o_hooks := hl; o_upd := []; o_cache := c |}
             | DNone => store p v c dl hl
             | DVal r =>
@@ -220,22 +222,13 @@ Definition handle_change (md : mdesc) (c : cache) (rq : request) : out :=
   | _ => fail c (ESecop NoSuchParameter) [] []
   end.
 
-(* what the function returns, as a python object *)
-Definition drv_result (d : drv) : res pyval :=
-  match d with
-  | DNone => Ok PNone
-  | DDone => Ok POpaque
-  | DVal r => Ok r
-  | DRaise _ => Err EOther
-  end.
-
 (* Command.do after the argument has been prepared: call, convert the result *)
 Definition call_cmd (cm : command) (a : pyval) (c : cache) (d : drv) : out :=
   let dl := [Call (c_name cm) a] in
   match d with
   | DRaise e => fail c e dl []
   | _ =>
-      let r := match d with DVal r => r | DDone => POpaque | _ => PNone end in
+      let r := match d with DVal r => r | DDone => POpaque | _ => PNone end in    (* Done: an object without peculiarities *)
       match c_res cm with
       | Some rd =>
           match dt_call rd r with
